@@ -836,7 +836,7 @@ def run_b06(tier, seed):
     bad = [r for r in far if any("far-translation" in f["key"] for f in r["fails"])]
     out.setdefault("far_translation_cases", len(far))
     out["far_translation_failing"] = len(bad)
-    if len(far) >= 30 and len(bad) > 0.06 * len(far):
+    if len(far) >= 40 and len(bad) >= 5 and len(bad) > 0.06 * len(far):      # needs a sample large enough for a frequency statement
         out["failures"].append(dict(key="B06:coefficient-pairs:far-translation-frequent:dlite", name="far-translation-frequent",
                                     input=bad[0]["spec"], detail=f"{len(bad)} of {len(far)} far-translated dlite cases have a coefficient error above tolerance "
                                                                  f"(unchanged tree: 1-2 %)"))
